@@ -111,19 +111,32 @@ macro_rules! must_not_reach {
 
 /// Bit-exact equality for sample types.
 pub trait Bits: Copy {
+    /// Equality used for *computed* values (all NaNs identified).
     fn bits_eq(&self, o: &Self) -> bool;
+    /// Exact bit pattern equality (values that are only moved/serialised).
+    fn exact_eq(&self, o: &Self) -> bool {
+        self.bits_eq(o)
+    }
 }
 macro_rules! bits_int {
     ($($t:ty),*) => {$( impl Bits for $t { fn bits_eq(&self, o:&Self)->bool { *self == *o } } )*};
 }
 bits_int!(u8, u16, u32, u64, usize, i8, i16, i32, i64, bool);
 impl Bits for f32 {
+    /// Bit-identical, with all NaNs identified (the payload of a *computed* NaN is not
+    /// specified by IEEE 754 and is nondeterministic in CBMC's float model).
     fn bits_eq(&self, o: &Self) -> bool {
+        self.to_bits() == o.to_bits() || (self.is_nan() && o.is_nan())
+    }
+    fn exact_eq(&self, o: &Self) -> bool {
         self.to_bits() == o.to_bits()
     }
 }
 impl Bits for rustradio::Complex {
     fn bits_eq(&self, o: &Self) -> bool {
+        self.re.bits_eq(&o.re) && self.im.bits_eq(&o.im)
+    }
+    fn exact_eq(&self, o: &Self) -> bool {
         self.re.to_bits() == o.re.to_bits() && self.im.to_bits() == o.im.to_bits()
     }
 }
